@@ -94,4 +94,30 @@ theorem rowOk_at (c : CcCfg) (r : CcRow) (h : rowOk c r = true) (b : Byte) (h1 :
   rw [e2] at this
   exact this
 
+/-! ### the table is checked in chunks (separate files, built in parallel) -/
+def ccChunk : Nat := 20
+def ccChunks : Nat := 6
+
+def chunkOk (k : Nat) : Bool := ((ccTable.drop (k * ccChunk)).take ccChunk).all cfgOk
+
+theorem all_of_chunks {α : Type} (l : List α) (p : α → Bool) (q n : Nat) (hq : 0 < q)
+    (h : ∀ k, k < n → ((l.drop (k * q)).take q).all p = true) (hl : l.length ≤ n * q) : l.all p = true := by
+  rw [List.all_eq_true]
+  intro x hx
+  obtain ⟨i, hi, rfl⟩ := List.getElem_of_mem hx
+  have hdm : i / q * q + i % q = i := by rw [Nat.mul_comm]; exact Nat.div_add_mod i q
+  have hml := Nat.mod_lt i hq
+  have hk : i / q < n := by
+    apply Nat.div_lt_of_lt_mul
+    rw [Nat.mul_comm]; omega
+  have h1 := h (i / q) hk
+  rw [List.all_eq_true] at h1
+  apply h1
+  rw [List.mem_iff_getElem]
+  generalize i / q * q = a at hdm
+  refine ⟨i % q, ?_, ?_⟩
+  · simp only [List.length_take, List.length_drop]; omega
+  · simp only [List.getElem_take, List.getElem_drop]
+    congr 1
+
 end NV.C13
